@@ -83,6 +83,15 @@ pub fn release(o: usize, arc: Arc<Desync<Val>>) {
 }
 
 pub fn drop_table_ref(o: usize) {
+    if is_raw(o) {
+        let q = w().objs[o].raw.take();
+        if let Some(q) = q {
+            let s = ev("table_drop", o as i64, 1);
+            w().objs[o].table_dropped_at = Some(s);
+            drop(q);
+        }
+        return;
+    }
     let a = {
         let world = w();
         if o >= world.objs.len() {
@@ -850,8 +859,191 @@ pub fn drop_out(out: usize) {
 
 // ---- operations ------------------------------------------------------------------------------
 
+/// A handle of a bare queue plus the value its jobs work on (None once the harness has given its handle up).
+fn raw_obj(o: usize) -> Option<(Arc<desync::scheduler::JobQueue>, usize)> {
+    let slot = w().objs.get(o)?;
+    if !slot.is_raw {
+        return None;
+    }
+    slot.raw.clone().map(|q| (q, slot.raw_val))
+}
+
+fn is_raw(o: usize) -> bool {
+    w().objs.get(o).map_or(false, |s| s.is_raw)
+}
+
+/// The same operations on a bare job queue, through the scheduler-level functions.  Nothing waits for such a queue when its
+/// last handle goes away: work that has been accepted must still run (the queue is kept alive by whoever is going to run or wake it).
+fn exec_raw_op(op: &Op, o: usize) {
+    use desync::scheduler as sch;
+    let id = op.id;
+    let (q, vp) = match raw_obj(o) {
+        Some(x) => x,
+        None => {
+            if let OpKind::DropObj { .. } = &op.k {
+                return;
+            }
+            return skip(id);
+        }
+    };
+    // the value outlives everything (it is never freed); exclusive access is what the queue promises and what the occupancy checks verify
+    let val = move || -> &'static mut Val { unsafe { &mut *(vp as *mut Val) } };
+    match &op.k {
+        OpKind::Desync { body, .. } => {
+            let body = body.clone();
+            let b = call_begin(id);
+            let probe = Probe(id);
+            let r = catch_unwind(|| {
+                sch::desync(&q, move || {
+                    let _p = probe;
+                    run_sync_body(val(), o, id, &body);
+                })
+            });
+            call_end(id, b, match r {
+                Ok(()) => CallOutcome::Returned(None),
+                Err(e) => CallOutcome::Panicked(panic_msg(&e)),
+            });
+        }
+        OpKind::Sync { body, .. } => {
+            let body = body.clone();
+            w().cover.sync_calls += 1;
+            let b = call_begin(id);
+            let probe = Probe(id);
+            let r = catch_unwind(|| {
+                sch::sync(&q, move || {
+                    let _p = probe;
+                    run_sync_body(val(), o, id, &body)
+                })
+            });
+            call_end(id, b, match r {
+                Ok(v) => CallOutcome::Returned(Some(v)),
+                Err(e) => CallOutcome::Panicked(panic_msg(&e)),
+            });
+        }
+        OpKind::TrySync { body, .. } => {
+            let body = body.clone();
+            let b = call_begin(id);
+            let probe = Probe(id);
+            let r = catch_unwind(|| {
+                sch::try_sync(&q, move || {
+                    let _p = probe;
+                    run_sync_body(val(), o, id, &body)
+                })
+            });
+            let oc = match r {
+                Ok(Ok(v)) => {
+                    w().cover.try_ok += 1;
+                    CallOutcome::Returned(Some(v))
+                }
+                Ok(Err(_)) => {
+                    let world = w();
+                    world.cover.try_busy += 1;
+                    world.objs[o].saw_busy = true;
+                    CallOutcome::Busy
+                }
+                Err(e) => CallOutcome::Panicked(panic_msg(&e)),
+            };
+            call_end(id, b, oc);
+        }
+        OpKind::FutureDesync { body, h, .. } => {
+            let (body, h) = (body.clone(), *h);
+            let b = call_begin(id);
+            let probe = Probe(id);
+            let r = catch_unwind(|| sch::future_desync(&q, move || BodyFut::new(val(), o, id, body, token(id), Some(probe), None)));
+            match r {
+                Ok(f) => {
+                    call_end(id, b, CallOutcome::Returned(None));
+                    let s = seq();
+                    let world = w();
+                    world.hrec[h].op = Some(id);
+                    world.hrec[h].kind = Kind::FutureDesync;
+                    world.hrec[h].created_at = Some(s);
+                    world.handles[h] = HandleSlot::Sched(f);
+                }
+                Err(e) => call_end(id, b, CallOutcome::Panicked(panic_msg(&e))),
+            }
+        }
+        OpKind::After { gate, body, h, .. } => {
+            let (gate, body, h) = (*gate, body.clone(), *h);
+            let b = call_begin(id);
+            let probe = Probe(id);
+            let r = catch_unwind(|| {
+                scheduler().after(&q, GateFut { g: gate, key: id }, move |_: ()| {
+                    let _p = probe;
+                    run_sync_body(val(), o, id, &body)
+                })
+            });
+            match r {
+                Ok(f) => {
+                    call_end(id, b, CallOutcome::Returned(None));
+                    let s = seq();
+                    let world = w();
+                    world.hrec[h].op = Some(id);
+                    world.hrec[h].kind = Kind::After;
+                    world.hrec[h].created_at = Some(s);
+                    world.handles[h] = HandleSlot::Boxed(Box::pin(f), None);
+                }
+                Err(e) => call_end(id, b, CallOutcome::Panicked(panic_msg(&e))),
+            }
+        }
+        OpKind::FutureSync { body, h, .. } => {
+            let (body, h) = (body.clone(), *h);
+            let b = call_begin(id);
+            let probe = Probe(id);
+            let q2 = q.clone();
+            let r = catch_unwind(move || {
+                let f = sch::future_sync(&q2, move || BodyFut::new(val(), o, id, body, token(id), Some(probe), None));
+                let f: BoxedHandle = Box::pin(f);
+                f
+            });
+            match r {
+                Ok(f) => {
+                    call_end(id, b, CallOutcome::Returned(None));
+                    let s = seq();
+                    let world = w();
+                    world.hrec[h].op = Some(id);
+                    world.hrec[h].kind = Kind::FutureSync;
+                    world.hrec[h].created_at = Some(s);
+                    world.handles[h] = HandleSlot::Boxed(f, None);
+                }
+                Err(e) => call_end(id, b, CallOutcome::Panicked(panic_msg(&e))),
+            }
+        }
+        OpKind::Suspend { h, .. } => {
+            let h = *h;
+            let b = call_begin(id);
+            let r = catch_unwind(|| scheduler().suspend(&q));
+            match r {
+                Ok(f) => {
+                    call_end(id, b, CallOutcome::Returned(None));
+                    let s = seq();
+                    let world = w();
+                    world.hrec[h].op = Some(id);
+                    world.hrec[h].kind = Kind::Suspend;
+                    world.hrec[h].created_at = Some(s);
+                    world.handles[h] = HandleSlot::SuspendFut(Box::pin(f));
+                }
+                Err(e) => call_end(id, b, CallOutcome::Panicked(panic_msg(&e))),
+            }
+        }
+        OpKind::DropObj { .. } => {
+            drop(q);
+            drop_table_ref(o);
+            return;
+        }
+        _ => skip(id),
+    }
+    // the handle cloned for this call goes away again (it may be the last one: nothing waits, the queue simply lives on in its runner or wakers)
+    drop(q);
+}
+
 pub fn exec_op(op: &Op) {
     let id = op.id;
+    if let Some(o) = op.obj() {
+        if is_raw(o) {
+            return exec_raw_op(op, o);
+        }
+    }
     match &op.k {
         OpKind::Desync { o, body } => {
             let (o, body) = (*o, body.clone());
